@@ -165,7 +165,7 @@ fn gen_ast_case(t: &mut Tape) -> JunkCase {
 }
 
 pub fn check(ctx: &mut Ctx) {
-    ctx.rule = "cases = (source, delimiter pair, configuration); every case is pushed through clean, list (JSON, pretty) and list_all (JSON, pretty) built with overflow checks. Exhaustive: every string of <= L atoms over {ready tag, closing tag, unwrap-block tag, pending tag, blank tag, line break, 'x', space, multi-byte char, stray delimiters} for 24 delimiter pairs incl. hostile ones (space, line break, quote, letters as delimiters) under 3 offset strings; random: atom soups, AST documents (tags on wrapper lines, shared tag lines, nested unwrap, CRLF, appended multi-byte last character) and mutated AST documents under random times / offsets / target sets. Oracle: returns without panic, list* is Ok, JSON parses. Non-trivial = the reference tokenizer finds at least one tag.".into();
+    ctx.rule = "cases = (source, delimiter pair, configuration); every case is pushed through clean, list (JSON, pretty) and list_all (JSON, pretty) built with overflow checks. Exhaustive: every string of <= L atoms over {ready tag, closing tag, unwrap-block tag, pending tag, blank tag, line break, 'x', space, multi-byte char, stray delimiters} for 27 delimiter pairs incl. hostile ones (space, line break, quote, letters as delimiters) under 3 offset strings; random: atom soups, AST documents (tags on wrapper lines, shared tag lines, nested unwrap, CRLF, appended multi-byte last character) and mutated AST documents under random times / offsets / target sets. Oracle: returns without panic, list* is Ok, JSON parses. Non-trivial = the reference tokenizer finds at least one tag.".into();
     ctx.assume("delimiters are non-empty");
     ctx.assume("nesting depth is bounded by the generated size (maxima reported); a process abort of the harness (e.g. stack overflow) is reported as inconclusive, not as a violation");
     for c in ["last-char-multibyte", "blank-tag-body", "has-unwrap-block-tag"] {
@@ -181,7 +181,7 @@ pub fn check(ctx: &mut Ctx) {
             units.push((ds.to_string(), de.to_string(), atoms.clone(), first, l));
         }
     }
-    ctx.exhaustive("atom-documents", &format!("all strings of <= L element-building atoms with atoms^L <= {budget}, per delimiter pair (24 pairs), x 5 entry points"), units, |(ds, de, atoms, first, l), obs| {
+    ctx.exhaustive("atom-documents", &format!("all strings of <= L element-building atoms with atoms^L <= {budget}, per delimiter pair (27 pairs), x 5 entry points"), units, |(ds, de, atoms, first, l), obs| {
         let mut fail = None;
         let mut cfg = Cfg::simple(ds, de);
         enumerate(atoms, *first, *l, &mut |s: &str| {
